@@ -153,6 +153,29 @@ func scenarioHostile() int {
 			bbytes += int64(len(in.raw))
 			run.Eval(strings.SplitN(in.mut, "=", 2)[0] + "|" + in.proto)
 		}
+		// connections that deliver only the beginning of a message and then stay silent
+		// (still open while the probe set runs): they must not hold up anybody else
+		var dangling []*wire.TCPConn
+		for k := 0; k < 12; k++ {
+			sv := w.Svcs[g.R.Intn(len(w.Svcs))]
+			c, err := w.Net.Dial("dangling", w.UAs[3].IP+":0", fmt.Sprintf("%s:%d", sv.IP, sv.TCP))
+			if err != nil {
+				continue
+			}
+			seed := seeds[sv.Index][g.R.Intn(len(seeds[sv.Index]))]
+			cut := 1 + g.R.Intn(len(seed)-1)
+			if k%3 == 0 {
+				// complete header section announcing a body that never comes
+				m, _ := sip.Read(seed)
+				wire.SetHeader(m, "Content-Length", "5000")
+				m.Body = []byte("only-a-few-bytes")
+				seed = m.Bytes()
+				cut = len(seed)
+			}
+			c.Send(seed[:cut], "")
+			dangling = append(dangling, c)
+			run.Eval("dangling-partial|tcp")
+		}
 		sent += len(batch)
 		sinceRestart += len(batch)
 		sentBytes += bbytes
@@ -202,6 +225,9 @@ func scenarioHostile() int {
 				}
 				c.Close(false)
 			}
+		}
+		for _, c := range dangling {
+			c.Close(false)
 		}
 		if failed != "" {
 			hostileNarrow(run, w, batch, probes, failed, failedSvc)
